@@ -337,7 +337,8 @@ func c03replay(ops []c03op, cas c03case, probeAll bool) (v *Violation, finalKey 
 		w = c03newWorld(cas.Root, nil)
 	}
 	probe := func(upto int) *Violation {
-		for _, p := range c03probes {
+		for pi2 := 0; pi2 < 2*len(c03probes); pi2++ {
+			p := c03probes[pi2/2] // each severity twice in a row: the second record of a severity must be told the severity again
 			w.rec.reset()
 			so0, se0 := fileSize(stdoutFile), fileSize(stderrFile)
 			pan := catch(func() { p.f(w.l) })
